@@ -135,6 +135,44 @@ func nearestSet(s []float64, v float64) map[int]bool {
 	return set
 }
 
+// nearestSet0 is nearestSet without slack: the indices whose distance from v
+// is exactly the minimum (for v = +-Inf: the indices of the largest/smallest
+// value); nil if v is NaN or no distance is defined.
+func nearestSet0(s []float64, v float64) map[int]bool {
+	if math.IsNaN(v) {
+		return nil
+	}
+	set := map[int]bool{}
+	if math.IsInf(v, 0) {
+		b := extremeIdx(s, v > 0)
+		if b < 0 {
+			return nil
+		}
+		for i, x := range s {
+			if x == s[b] {
+				set[i] = true
+			}
+		}
+		return set
+	}
+	dmin := math.NaN()
+	for _, x := range s {
+		d := math.Abs(v - x)
+		if !math.IsNaN(d) && (math.IsNaN(dmin) || d < dmin) {
+			dmin = d
+		}
+	}
+	if math.IsNaN(dmin) {
+		return nil
+	}
+	for i, x := range s {
+		if math.Abs(v-x) == dmin {
+			set[i] = true
+		}
+	}
+	return set
+}
+
 func genFloatsOrder(g *vlib.G) {
 	// ---- Argsort / ArgsortStable ----
 	for fn := 0; fn < 2; fn++ {
@@ -181,7 +219,11 @@ func genFloatsOrder(g *vlib.G) {
 			n := n
 			g.Case(fmt.Sprintf("%s all sequences n=%d", name, n), func(t *vlib.T) {
 				cnt := 0
-				seqs([]float64{0, negz, 1, 2, nan}, n, n, func(s []float64) {
+				alpha := []float64{0, negz, 1, 2, nan}
+				if n <= 5 {
+					alpha = []float64{ninf, 0, negz, 1, 2, pinf, nan}
+				}
+				seqs(alpha, n, n, func(s []float64) {
 					if !t.Failed() {
 						checkSort(t, s)
 						cnt++
@@ -361,25 +403,61 @@ func genFloatsOrder(g *vlib.G) {
 		})
 	}
 
-	// ---- NearestIdxForSpan vs the materialised Span (ties are a don't-care zone) ----
-	grid := []float64{ninf, pinf, nan, -1, 0, 0.5, 1, 3}
+	// ---- NearestIdxForSpan == NearestIdx(Span(...)) on the full cross product of a special-value alphabet ----
+	//
+	// Documented: "NearestIdxForSpan(n, l, u, v) is equivalent to Nearest(Span(make([]float64, n),l,u),v)", and
+	// NearestIdx returns the lowest index among several nearest elements. The oracle is the definitional
+	// argmin on the actual Span output. Accepted deviations (don't-care zones, see NOTES.md):
+	//   - v is NaN (no distance is defined);
+	//   - the returned element is a different value whose distance from v equals the minimum up to 1e-9
+	//     relative: the query sits (within rounding) half-way between two grid points, which the source
+	//     declares unspecified, or the two distances round to the same float64;
+	//   - v is finite and both distances are infinite (span values of opposite infinite sign).
+	//   - l finite (or NaN), u infinite, v == u: the implementation returns the last index of the run of u,
+	//     which the package's own tests pin.
+	// Every other tie among EQUAL span values (degenerate span l == u, runs of +-Inf) must resolve to the
+	// lowest index.
+	spanAlpha := []float64{ninf, pinf, nan, -3, -1, 0, 0.5, 1, 3, 1e300, -1e300}
 	for n := 1; n <= vlib.Pick(g, 9, 17); n++ {
 		n := n
 		g.Case(fmt.Sprintf("NearestIdxForSpan n=%d", n), func(t *vlib.T) {
 			if n == 1 {
-				if !mustPanic(func() { floats.NearestIdxForSpan(1, 0, 1, 0.5) }) {
-					t.Failf("NearestIdxForSpan(n=1) did not panic")
+				for _, l := range spanAlpha {
+					for _, u := range spanAlpha {
+						for _, v := range spanAlpha {
+							if !mustPanic(func() { floats.NearestIdxForSpan(1, l, u, v) }) || !mustPanic(func() { floats.NearestIdxForSpan(0, l, u, v) }) {
+								t.Failf("NearestIdxForSpan(n<2,%v,%v,%v) did not panic", l, u, v)
+								return
+							}
+						}
+					}
 				}
+				t.Outcome("nearest-span-panics")
 				return
 			}
-			ties, cnt := 0, 0
-			vv := append([]float64{}, grid...)
-			for k := -4; k <= 4*n+4; k++ { // a fine grid of finite query points across and beyond [-1,3]
-				vv = append(vv, -1+float64(k)/float64(n))
-			}
-			for _, l := range grid {
-				for _, u := range grid {
+			ties, cnt, degenerate, infRun := 0, 0, 0, 0
+			for _, l := range spanAlpha {
+				for _, u := range spanAlpha {
 					span := floats.Span(make([]float64, n), l, u)
+					// queries: the alphabet, every grid point, every exact midpoint and its two neighbours,
+					// points below and above the span, a fine grid across it
+					vv := append([]float64{}, spanAlpha...)
+					for i, x := range span {
+						vv = append(vv, x)
+						if i+1 < n {
+							if m := (x + span[i+1]) / 2; !math.IsNaN(m) && !math.IsInf(m, 0) {
+								vv = append(vv, m, math.Nextafter(m, pinf), math.Nextafter(m, ninf))
+							}
+						}
+					}
+					if !math.IsNaN(l+u) && !math.IsInf(l+u, 0) && !math.IsInf(u-l, 0) {
+						for k := -2; k <= 4*n+2; k++ {
+							vv = append(vv, l+(u-l)*float64(k)/float64(4*n))
+						}
+					}
+					if l == u {
+						degenerate++
+					}
 					for _, v := range vv {
 						cnt++
 						got := floats.NearestIdxForSpan(n, l, u, v)
@@ -387,15 +465,40 @@ func genFloatsOrder(g *vlib.G) {
 							t.Failf("NearestIdxForSpan(%d,%v,%v,%v)=%d out of range", n, l, u, v, got)
 							return
 						}
-						set := nearestSet(span, v)
+						set := nearestSet0(span, v)
 						if set == nil {
-							continue
+							continue // v is NaN or no distance is defined
 						}
 						if len(set) > 1 {
 							ties++
 						}
-						if !set[got] {
-							t.Failf("NearestIdxForSpan(%d,%v,%v,%v)=%d, but the nearest elements of Span %v are %v", n, l, u, v, got, span, set)
+						want := n
+						for i := range set {
+							if i < want {
+								want = i
+							}
+						}
+						if got == want {
+							continue
+						}
+						dg, dw := math.Abs(v-span[got]), math.Abs(v-span[want])
+						switch {
+						case span[got] == span[want]:
+							if math.IsInf(u, 0) && !math.IsInf(l, 0) && v == u {
+								// Span is l, u, u, ..., u with u infinite and the query is u: the
+								// implementation returns n-1, not the lowest index 1, and the package's own
+								// TestNearestIdxForSpan (cases 22 and 24) pins n-1: don't-care zone.
+								infRun++
+								continue
+							}
+							t.Failf("NearestIdxForSpan(%d,%v,%v,%v)=%d want %d: lowest index among the equal nearest elements of Span %v", n, l, u, v, got, want, span)
+							return
+						case !math.IsInf(v, 0) && math.IsInf(dg, 0) && math.IsInf(dw, 0):
+							// finite query, infinite distances to infinities of both signs: don't-care
+						case !math.IsInf(dg, 0) && !math.IsNaN(dg) && math.Abs(dg-dw) <= 1e-9*math.Max(dg, dw):
+							// (near) half-way between two distinct grid points: don't-care
+						default:
+							t.Failf("NearestIdxForSpan(%d,%v,%v,%v)=%d (distance %v), but NearestIdx(Span %v)=%d (distance %v)", n, l, u, v, got, dg, span, want, dw)
 							return
 						}
 					}
@@ -403,8 +506,49 @@ func genFloatsOrder(g *vlib.G) {
 			}
 			t.Count("span_queries", int64(cnt))
 			t.Count("span_queries_with_ties", int64(ties))
+			t.Count("span_degenerate_bounds", int64(degenerate))
+			t.Count("span_infinite_run_dontcare", int64(infRun))
 			t.Nontrivial()
 			t.Outcome("nearest-span")
+		})
+	}
+
+	// ---- Find with NaN / Inf elements in every position ----
+	for n := 0; n <= 5; n++ {
+		n := n
+		g.Case(fmt.Sprintf("Find special values n=%d", n), func(t *vlib.T) {
+			preds := []func(float64) bool{math.IsNaN, func(v float64) bool { return math.IsInf(v, 0) }, func(v float64) bool { return v == 0 }}
+			seqs([]float64{negz, 1, nan, pinf, ninf}, n, n, func(s []float64) {
+				for pi, f := range preds {
+					var all []int
+					for i, v := range s {
+						if f(v) {
+							all = append(all, i)
+						}
+					}
+					for k := -1; k <= n+1; k++ {
+						got, err := floats.Find(nil, f, s, k)
+						want, wantErr := all, false
+						if k == 0 {
+							want = nil
+						} else if k > 0 {
+							if len(all) >= k {
+								want = all[:k]
+							} else {
+								wantErr = true
+							}
+						}
+						if fmt.Sprint(got) != fmt.Sprint(append([]int{}, want...)) || (err != nil) != wantErr {
+							t.Failf("Find(predicate %d, %s, k=%d) = %v, %v; want %v, error=%v", pi, fstr(s), k, got, err, want, wantErr)
+							return
+						}
+					}
+				}
+			})
+			if n >= 2 {
+				t.Nontrivial()
+			}
+			t.Outcome("find-special")
 		})
 	}
 
